@@ -65,6 +65,16 @@ MALFORMED = [
 ]
 
 
+COMMAND_HEADERS = [
+    "Filter: name = a", "Filter: state = 0", "Filter: x", "Filter:", "And: 1", "Or: 2", "Negate:", "Stats: state = 0", "Stats: sum state", "Stats: avg name", "Stats:",
+    "StatsAnd: 1", "StatsOr: 2", "StatsNegate:", "Sort: name asc", "Sort: custom_variables X desc", "Sort:", "Limit: 1", "Limit: -1", "Offset: 3", "Backends: a", "Backends:",
+    "Columns: name state", "Columns:", "ResponseHeader: fixed16", "ResponseHeader: off", "OutputFormat: json", "OutputFormat: wrapped_json", "OutputFormat: x", "WaitTimeout: 10",
+    "WaitTrigger: all", "WaitObject: a;b", "WaitObject: a", "WaitCondition: state = 0", "WaitCondition: name", "WaitConditionAnd: 1", "WaitConditionOr: 1", "WaitConditionNegate:",
+    "KeepAlive: on", "KeepAlive: x", "ColumnHeaders: on", "Localtime: 1", "AuthUser: alice", "AuthUser:", "Unknown: x", "nocolon",
+    "Filter: name = a\nFilter: state = 1\nOr: 2\nNegate:", "Stats: state = 0\nStats: state = 1\nStatsAnd: 2", "WaitTrigger: all\nWaitObject: a\nWaitCondition: state = 0\nWaitTimeout: 5",
+]
+
+
 def crash_dataset(rng):
     ds = gen.gen_dataset(rng, {"nbackends": [3], "nhosts": [2, 3], "nsvcs": [1, 2]})
     # make sure host comments / downtimes (no service reference) exist, and flavours differ
@@ -131,6 +141,12 @@ def run(ctx, spec, out):
             else:
                 b = b[:rng.randrange(len(b))]
         add(b.decode("utf-8", "replace"), "mutated")
+    # (ii-b) COMMAND requests carrying every header a GET request may carry (a command has no table)
+    for hdr in COMMAND_HEADERS:
+        for first in ("COMMAND [0] X", "COMMAND [1700000000] SCHEDULE_FORCED_HOST_CHECK;h;1"):
+            add("%s\n%s\n\n" % (first, hdr), "command-header")
+    for text in ["COMMAND\n\n", "COMMAND \n\n", "COMMAND [x] y\n\n", "COMMAND [] y\n\n", "COMMAND [1]\n\n", "COMMAND  [1] y \n\n", "COMMAND [1] y\nGET hosts\n\n", "COMMAND [1] \xff\x00\n\n"]:
+        add(text, "command-header")
     controls.append(add(CONTROL, "control"))
     impl = common.run_impl(ctx["binary"], lines, scratch, timeout=900)
     model = common.run_model(ctx["schema_path"], [l for l in lines if l["id"] == 1 or l["id"] in controls])
@@ -171,7 +187,7 @@ def judge(v, cases, impl, model, controls):
             continue
         code = r.get("code")
         v.bump("code:%s" % code)
-        if kind in ("dispatch", "mutated", "malformed") and cid % 7 == 0:
+        if kind in ("dispatch", "mutated", "malformed", "command-header") and cid % 7 == 0:
             h = common.case_hash(case["text"])
             if h not in v.distinct:
                 v.distinct.add(h)
